@@ -72,4 +72,55 @@ def accepts : MSt → List (Op × Ans) → Bool
   | _, [] => true
   | s, (op, a) :: rest => (monStep s op a).2 && accepts (monStep s op a).1 rest
 
+/-! ## timer queue -/
+
+/-- `tvcmp` as an integer key: lexicographic on `(tv_sec, tv_usec)` for 64-bit `tv_usec` -/
+def timeKey (sec usec : Int) : Int := sec * 2^64 + (usec + 2^63)
+
+inductive TOp where
+  | add (r : Nat) (sec usec : Int) (ptr : Nat)   -- `timerqueue_add`, `r` = the cookie returned
+  | del (r : Nat)                                -- `timerqueue_delete(Q, cookie)`
+  | inc (r : Nat) (sec usec : Int)               -- `timerqueue_increase(Q, cookie, tv)`
+  | getmin                                       -- `timerqueue_getmin`
+  | get (sec usec : Int)                         -- `timerqueue_getptr(Q, tv)`
+  deriving Repr, DecidableEq
+
+inductive TAns where
+  | ok
+  | skip
+  | precondition
+  | tmin (r : Option (Int × Int))
+  | rel (r : Option (Nat × Nat))                 -- released (record, pointer)
+  deriving Repr, DecidableEq
+
+def updN (f : Nat → Nat) (e v : Nat) : Nat → Nat := fun x => if x = e then v else f x
+
+structure TMSt where
+  time : Nat → Int          -- record ↦ `timeKey` of its current time
+  ptr : Nat → Nat           -- record ↦ pointer stored with it
+  live : List Nat
+
+def TMSt.init : TMSt := { time := fun _ => 0, ptr := fun _ => 0, live := [] }
+
+def tmonStep (s : TMSt) : TOp → TAns → TMSt × Bool
+  | .add r sec usec p, a =>
+      if s.live.contains r then (s, a = .skip)
+      else ({ time := upd s.time r (timeKey sec usec), ptr := updN s.ptr r p, live := r :: s.live }, a = .ok)
+  | .del r, a =>
+      if !s.live.contains r then (s, a = .skip) else ({ s with live := s.live.erase r }, a = .ok)
+  | .inc r sec usec, a =>
+      if !s.live.contains r || timeKey sec usec < s.time r then (s, a = .skip)
+      else ({ s with time := upd s.time r (timeKey sec usec) }, a = .ok)
+  | .getmin, .tmin none => (s, s.live.isEmpty)
+  | .getmin, .tmin (some (sec, usec)) =>
+      (s, s.live.any (fun r => s.time r == timeKey sec usec) && s.live.all (fun x => timeKey sec usec ≤ s.time x))
+  | .get sec usec, .rel none => (s, getptrOk s.time s.live (timeKey sec usec) none)
+  | .get sec usec, .rel (some (r, p)) =>
+      ({ s with live := s.live.erase r }, getptrOk s.time s.live (timeKey sec usec) (some r) && p == s.ptr r)
+  | _, _ => (s, false)
+
+def taccepts : TMSt → List (TOp × TAns) → Bool
+  | _, [] => true
+  | s, (op, a) :: rest => (tmonStep s op a).2 && taccepts (tmonStep s op a).1 rest
+
 end Percival.Spec.PQ
